@@ -531,3 +531,79 @@ pub fn sym_cone_battery(
     }
     out
 }
+
+/// Barrier calculus of one nonsymmetric cone (exponential, power, generalised power) at (s, z); see `nonsym_cone_battery`.
+#[derive(Clone, Debug, Default)]
+pub struct NonsymBattery {
+    pub primal_feasible: bool,
+    pub dual_feasible: bool,
+    pub barrier_primal: f64,
+    pub barrier_dual: f64,
+    pub scaled_dual_ok: bool,
+    pub grad_dual: Vec<f64>,      // gradient of the dual barrier at z, as the cone stores it
+    pub h_dual: Vec<Vec<f64>>,    // Hessian of the dual barrier at z (columns of mul_Hs under dual scaling with mu = 1)
+    pub grad_primal: Vec<f64>,    // gradient of the primal barrier at s (3-dimensional cones only)
+    pub eta: Vec<f64>,            // third-order correction for (ds, dz)
+    pub scaled_pd_ok: bool,
+    pub hs_pd: Vec<Vec<f64>>,     // scaling matrix after update_scaling(s, z, mu, PrimalDual)
+    pub unit_s: Vec<f64>,
+    pub unit_z: Vec<f64>,
+}
+
+pub fn nonsym_cone_battery(
+    cone: &crate::solver::SupportedConeT<f64>,
+    s: &[f64],
+    z: &[f64],
+    ds: &[f64],
+    dz: &[f64],
+    mu: f64,
+) -> NonsymBattery {
+    use crate::solver::core::cones::*;
+    use crate::solver::core::ScalingStrategy;
+    let n = s.len();
+    let mut out = NonsymBattery::default();
+    let cols = |c: &mut SupportedCone<f64>| -> Vec<Vec<f64>> {
+        // dense matrix of mul_Hs, row by row (the operator is symmetric: column i = row i)
+        (0..n).map(|i| { let mut e = vec![0.0; n]; e[i] = 1.0; let mut y = vec![0.0; n]; let mut w = vec![0.0; n]; c.mul_Hs(&mut y, &e, &mut w); y }).collect()
+    };
+    let mut c = make_cone(cone);
+    let (mut uz, mut us) = (vec![0.0; n], vec![0.0; n]);
+    c.unit_initialization(&mut uz, &mut us);
+    out.unit_z = uz;
+    out.unit_s = us;
+    match &mut c {
+        SupportedCone::ExponentialCone(k) => {
+            out.primal_feasible = k.is_primal_feasible(s); out.dual_feasible = k.is_dual_feasible(z);
+            if out.primal_feasible { out.barrier_primal = k.barrier_primal(s); out.grad_primal = k.gradient_primal(s).to_vec(); }
+            if out.dual_feasible { out.barrier_dual = k.barrier_dual(z); }
+        }
+        SupportedCone::PowerCone(k) => {
+            out.primal_feasible = k.is_primal_feasible(s); out.dual_feasible = k.is_dual_feasible(z);
+            if out.primal_feasible { out.barrier_primal = k.barrier_primal(s); out.grad_primal = k.gradient_primal(s).to_vec(); }
+            if out.dual_feasible { out.barrier_dual = k.barrier_dual(z); }
+        }
+        SupportedCone::GenPowerCone(k) => {
+            out.primal_feasible = k.is_primal_feasible(s); out.dual_feasible = k.is_dual_feasible(z);
+            if out.primal_feasible { out.barrier_primal = k.barrier_primal(s); }
+            if out.dual_feasible { out.barrier_dual = k.barrier_dual(z); }
+        }
+        _ => return out,
+    }
+    if !(out.primal_feasible && out.dual_feasible) {
+        return out;
+    }
+    // dual scaling with mu = 1: Hs is the Hessian of the dual barrier; the shift for zero steps and sigma*mu = 1 is its gradient
+    out.scaled_dual_ok = c.update_scaling(s, z, 1.0, ScalingStrategy::Dual);
+    out.h_dual = cols(&mut c);
+    let mut g = vec![0.0; n];
+    c.combined_ds_shift(&mut g, &mut vec![0.0; n], &mut vec![0.0; n], 1.0);
+    out.grad_dual = g.clone();
+    let mut sh = vec![0.0; n];
+    c.combined_ds_shift(&mut sh, &mut dz.to_vec(), &mut ds.to_vec(), 1.0);
+    out.eta = (0..n).map(|i| g[i] - sh[i]).collect();
+    // primal-dual scaling at the requested mu
+    let mut c2 = make_cone(cone);
+    out.scaled_pd_ok = c2.update_scaling(s, z, mu, ScalingStrategy::PrimalDual);
+    out.hs_pd = cols(&mut c2);
+    out
+}
